@@ -26,7 +26,7 @@ class CallMixin:
         if isinstance(e.func, ast.Attribute) and ast.unparse(e.func) in ("t.cast", "typing.cast"):
             return self.ev(e.args[1], st, k)
         if isinstance(e.func, ast.Name) and e.func.id == "super" and not e.args:
-            cls = self.resolve_class_name(self.ext.class_name)
+            cls = getattr(self, "inline_class", None) or self.resolve_class_name(self.ext.class_name)
             return k(st, SV(st.locals["self"].t, None, ("super", st.locals["self"], cls)))
         # generator / comprehension consumers
         if isinstance(e.func, ast.Name) and e.func.id in ("any", "all", "tuple", "list", "set", "sum") and len(e.args) == 1 and isinstance(e.args[0], (ast.GeneratorExp, ast.ListComp)) and e.func.id not in st.locals:
@@ -69,6 +69,11 @@ class CallMixin:
             return self.construct(st, meta[1], pos, kws, node, txt, k)
         if kind == "super":
             raise Unsupported("super() used as a callee")
+        if kind == "excinit":
+            me = meta[1]
+            argt = self.new_list(st, [p.t for p in pos], kind=smt.CLS_TUPLE)
+            self.store_field(st, me.t, "args", argt)
+            return k(st, SV_NONE)
         if kind in ("func", "method"):
             if kind == "method":
                 fobj, selfsv = meta[1], meta[2]
@@ -231,6 +236,12 @@ class CallMixin:
         old = pre.copy()
         post = pre
         self.apply_modifies(post, con2.modifies, env, old)
+        for lname, lty in con2.ghost.get("post_locals", {}).items():
+            lv = smt.fresh("ghostlocal")
+            env[lname] = self.typed(post, lv, lty)
+            a2 = smt.fresh("alloc", IntS)
+            post.assume(a2 >= post.alloc, z3.Implies(smt.is_ref(lv), Val.r(lv) < a2))
+            post.alloc = a2
         rty = ann_to_type(fn.returns)
         res_t = smt.fresh("ret")
         outs = []
@@ -306,12 +317,19 @@ class CallMixin:
             ex = smt.fresh("exc", IntS)
             es.assume(ex >= es.alloc, self.classes.isa(cls, smt.CLS[ex]))
             es.alloc = ex + 1
+            for cl in spec.get("ensures_exc", []):
+                es.assume(self.spec_bool(cl, es, dict(es.locals, **env), old=old))
+                self.note(f"ASSUMED on exceptional exit of opaque callee {txt}: {cl}")
             outs.append(Outcome("raise", es, SV(smt.mk_ref(ex), "obj:" + cname)))
+        if spec.get("counter"):
+            g = "ghost_" + spec["counter"]
+            base.locals[g] = sv_int(Val.i(base.locals[g].t) + 1)
         if spec.get("noreturn"):
             return outs
         ret = spec.get("returns", "any")
         if spec.get("pure"):
-            f = self.get_uf("opq_" + "".join(ch if ch.isalnum() else "_" for ch in txt), [Val] * len(pos), Val)
+            ufname = ("spec_" + spec["uf"]) if spec.get("uf") else "opq_" + "".join(ch if ch.isalnum() else "_" for ch in txt)
+            f = self.get_uf(ufname, [Val] * len(pos), Val)
             rt = f(*[p.t for p in pos])
             self.note(f"opaque callee {txt} treated as a deterministic function of its arguments")
         else:
@@ -364,17 +382,27 @@ class CallMixin:
                 ref = self.list_slice_copy(st, v.t, z3.IntVal(0), n, kind=smt.CLS_LIST if cls is list else smt.CLS_TUPLE)
                 return k(st, SV(ref, "list", v.meta if v.meta and v.meta[0] == "elemtype" else None))
             raise Unsupported("list()/tuple() of unknown iterable")
-        if isinstance(cls, type) and issubclass(cls, BaseException):
+        if isinstance(cls, type) and issubclass(cls, BaseException) and cls.__name__ not in self.con.opaque:
             self.classes.register(cls)
+            self.classes.by_name.setdefault(cls.__name__, cls)
             ref = self.new_ref(st, cls=cls)
+            me = SV(ref, "obj:" + cls.__name__)
+            init = cls.__init__
+            if hasattr(init, "__code__"):
+                rel, qn = source.function_source_location(init)
+                ext2 = source.find_function(rel, qn)
+                self.inlined.add(f"{rel}:{qn}@{ext2.sha256[:12]}")
+                saved_cls = getattr(self, "inline_class", None)
+                self.inline_class = [c for c in cls.__mro__ if "__init__" in vars(c)][0]
+                try:
+                    return self.inline_ast(st, ext2.node, [me] + list(pos), kws, False, {}, node, lambda s1, _v: k(s1, me), module_rel=rel)
+                finally:
+                    self.inline_class = saved_cls
+            if kws:
+                raise Unsupported("keywords to builtin exception")
             argt = self.new_list(st, [p.t for p in pos], kind=smt.CLS_TUPLE)
             self.store_field(st, ref, "args", argt)
-            for name, v in kws.items():
-                self.store_field(st, ref, name, v.t)
-            if kws or len(pos) > 1:
-                self.note(f"{cls.__name__}.__init__ modelled as storing positional args in .args and each keyword in the field of the same name")
-                self.check_exc_init(cls, kws)
-            return k(st, SV(ref, "obj:" + cls.__name__))
+            return k(st, me)
         name = cls.__name__
         if name in self.con.opaque:
             return self.apply_opaque(st, self.con.opaque[name], name, pos, kws, node, k)
